@@ -346,6 +346,43 @@ func TestPropConcurrentUse(t *testing.T) {
 		if fmt.Sprint(penv) != penvBefore {
 			t.Fatalf("Sign / Verify modified the shared env map")
 		}
+		// (c) parse-only rounds on documents that make Parse warn (unknown steps): the warning a parse
+		// returns must not depend on what was parsed before or concurrently (no process-wide state)
+		wg2 := doc.NewG(t, doc.Config{Anchors: false, Floats: true, UnknownSteps: true, MaxSteps: 6, EmptyKey: true})
+		wroot := wg2.Pipeline()
+		if wd, werr := doc.Render(wroot, 2, 20000); werr == nil {
+			parseText := func() string {
+				p, err := pipeline.Parse(bytes.NewReader(wd.YAML))
+				if p == nil {
+					return fmt.Sprintf("nil pipeline: %v", err)
+				}
+				return fmt.Sprintf("%d steps; %v", len(p.Steps), err)
+			}
+			first := parseText()
+			if second := parseText(); second != first {
+				t.Fatalf("parsing the same document twice gives different results:\n%s\n---\n%s\n%s", first, second, wd.YAML)
+			}
+			start3 := make(chan struct{})
+			outs := make([]string, workers)
+			for i := 0; i < workers; i++ {
+				wg.Add(1)
+				go func(i int) {
+					defer wg.Done()
+					<-start3
+					outs[i] = parseText()
+				}(i)
+			}
+			close(start3)
+			wg.Wait()
+			for i, o := range outs {
+				if o != first {
+					t.Fatalf("goroutine %d parsing the same document got a different result than the sequential parse:\n%s\n---\n%s\n%s", i, first, o, wd.YAML)
+				}
+			}
+			if wg2.Feat["unknown-step"] > 0 {
+				rec.Class("parse-with-warnings-round")
+			}
+		}
 		nt := tomb && len(shared) >= 1
 		rec.Case(ev.Hash(d.YAML, mBefore), nt, "key="+kp.Kind, fmt.Sprintf("tombstones=%v", tomb), fmt.Sprintf("gomaxprocs=%d", runtime.GOMAXPROCS(0)))
 		rec.ClassN("goroutine-runs", 2*workers)
